@@ -262,6 +262,43 @@ def clause_lookback(prog, rep, scope):
                   "%s:%s" % (cfg.get("file"), cfg.get("line")))
 
 
+def clause_config_call_sites(prog, rep):
+    """the same dependency call fed from MdkConfig at several places (creator side, joiner side, ...) wires the same configuration
+    fields to the same argument positions everywhere: two sites that disagree cannot both be right (the members of one group would then
+    run with different windows)"""
+    cfg = prog.adt("MdkConfig", crate="mdk_core")
+    cfg_fields = set(fd["name"] for fd in cfg["variants"][0]["fields"])
+    by_callee = {}
+    for f in prog.nontest_fns(("mdk_core",)):
+        for c in f.live_calls():
+            if c.krate in ("mdk_core", "core", "alloc", "std") or not c.args:
+                continue
+            sig = []
+            for a in c.args:
+                flds = ()
+                if "p" in a:
+                    direct = [e[1:] for e in a["p"][1:] if isinstance(e, str) and e.startswith(".") and e[1:] in cfg_fields]
+                    if direct:
+                        flds = tuple(direct)
+                    else:
+                        pr = A.producers(prog, f, a["p"][0], scope=set(), max_frames=0)
+                        flds = tuple(sorted(x for x in pr["fields"] if x in cfg_fields)) if not pr["calls"] else ()
+                sig.append(flds)
+            if sum(1 for x in sig if x) >= 1:
+                by_callee.setdefault(c.resolved or c.path, []).append((f, c, tuple(sig)))
+    n = 0
+    for callee, sites in sorted(by_callee.items()):
+        if len(sites) < 2:
+            continue
+        n += 1
+        sigs = set(s_ for _, _, s_ in sites)
+        rep.check(len(sigs) == 1, "config-inventory", "call-sites-agree/%s" % callee.split("<")[0].split("::")[-2:][0] + "::" + callee.split("::")[-1],
+                  "all %d call sites pass the same configuration fields in the same positions %s" % (len(sites), list(sigs)[0]),
+                  "call sites of %s wire MdkConfig fields differently: %s" % (callee, "; ".join("%s: %s" % (prog.fns.get(f.root, f).label(), [list(x) for x in s_]) for f, c, s_ in sites)),
+                  sites[0][1].loc())
+    rep.floor("config-inventory", "dependency calls fed from MdkConfig at two or more sites", n, 1)
+
+
 def clause_dedup_transient(prog, rep, roots):
     for f in roots:
         dedup = K.pure_lookup_calls(prog, f, "find_processed_message_by_event_id")
@@ -329,6 +366,7 @@ def run(ctx, rep):
     clause_echo_table(prog, rep, scope)
     clause_record_fields_rewritten(prog, rep, scope)
     clause_lookback(prog, rep, scope)
+    clause_config_call_sites(prog, rep)
     clause_dedup_transient(prog, rep, roots)
     # losing-branch messages: what the rollback arm invalidates is decided by the storage queries (both backends)
     rep.clause("C02.5b both backends' invalidation / retry queries select exactly what the storage contract names (epoch > N; Failed && epoch NULL), whatever the message's own state")
